@@ -128,6 +128,17 @@ def run(repo: Repo, L: Ledger, tier: str):
 
 
 def _validator(L, valid: Func):
+    # an mtime taken without following symbolic links is the link's, not the sequence file's
+    for c in [n for n in walk_shallow(valid.node) if isinstance(n, ast.Call)]:
+        d = dotted(c.func) or ""
+        nofollow = kw(c, "follow_symlinks")
+        if d in ("os.lstat",) or (isinstance(c.func, ast.Attribute) and c.func.attr == "lstat") or (isinstance(c.func, ast.Attribute) and c.func.attr == "stat" and nofollow is not None and try_fold(nofollow, default=None) is False) or (d == "os.stat" and nofollow is not None and try_fold(nofollow, default=None) is False):
+            L.fail(
+                "R2", valid.short,
+                f"'{norm(c)[:60]}' does not follow symbolic links: for a FASTA (or cache file) that is a link the freshness test compares the mtime of the link, which does not change when the sequence file is edited, so a stale cache is accepted",
+                valid.loc(c), witness={"history": "genome.fa -> data/genome.fa; index; edit data/genome.fa; auto_load()"},
+            )
+            return
     # discover the loop over the literal tuple of cache files
     loops = [n for n in walk_shallow(valid.node) if isinstance(n, ast.For)]
     files = None
@@ -143,7 +154,7 @@ def _validator(L, valid: Func):
     pe = PathEnum((n_iter,) if n_iter else (0,), exc_edges=False)
     n_true = 0
     ok, why = True, ""
-    fasta_names = {n.targets[0].id for n in walk_shallow(valid.node) if isinstance(n, ast.Assign) and isinstance(n.targets[0], ast.Name) and "self.fasta_file" in norm(n.value) and "st_mtime" in norm(n.value)}
+    fasta_names = set()  # locals are resolved along each path
     for p in pe.function_paths(valid.node):
         rets = [e.node for e in p.events if e.kind == "return"]
         if not rets or try_fold(rets[0].value, default=None) is not True:
@@ -166,10 +177,18 @@ def _validator(L, valid: Func):
 
                     if isinstance(t, ast.Call) and isinstance(t.func, ast.Attribute) and t.func.attr in ("exists", "is_file"):
                         facts.setdefault(sub(norm(t.func.value)), set()).add(("exists", v))
-                    elif isinstance(t, ast.Compare) and len(t.ops) == 1 and "st_mtime" in txt:
-                        l, r = t.left, t.comparators[0]
+                    elif isinstance(t, ast.Compare) and len(t.ops) == 1 and isinstance(t.ops[0], ast.Gt | ast.GtE | ast.Lt | ast.LtE):
+                        from ..util import resolve_on_path as _rop
+
+                        i_e = p.events.index(e)
+                        l, r = _rop(p, i_e, t.left), _rop(p, i_e, t.comparators[0])
                         op = t.ops[0]
                         lt, rt = norm(l), norm(r)
+                        if "st_mtime" not in lt + rt and "mtime" not in txt.lower():
+                            continue  # not a freshness comparison
+                        if "st_mtime" not in lt or "st_mtime" not in rt:
+                            raise AnalysisError(f"{valid.short}: freshness comparison '{txt}' is between values whose origin is not a plain <file>.stat().st_mtime on this path ('{lt[:40]}' vs '{rt[:40]}'): form not understood")
+                        txt = f"{lt} {type(op).__name__} {rt}"
 
                         def is_fasta(s, node):
                             return "self.fasta_file" in s or (isinstance(node, ast.Name) and node.id in fasta_names)
@@ -298,6 +317,19 @@ def _atomic_helper(repo, L, fi, wr, helper, call):
     if not opens:
         L.fail("R4", helper.short, "helper writes nothing", helper.loc())
         return
+    for c_, t_ in opens:
+        # the opened name may be the final path itself on some path (e.g. `out = tmp if final.exists() else final`)
+        defs_ = local_defs(helper, t_) if t_.isidentifier() else []
+        flat = []
+        for d_ in defs_:
+            flat.extend([d_.body, d_.orelse] if isinstance(d_, ast.IfExp) else [d_])
+        if any(norm(d_) in cache_attrs for d_ in flat):
+            L.fail(
+                "R4", helper.short,
+                f"on some path '{t_}' is the final cache path itself: the cache file is then opened for writing in place (a run interrupted at a flush boundary, or a racing reader, sees a shorter file that is newer than the FASTA and passes the validator)",
+                helper.loc(c_), witness={"history": "no cache file yet; two runs index the same FASTA; one is killed after its first flush"},
+            )
+            return
     c, tmp_txt = opens[0]
     ok, why = _tmp_is_unique_sibling(helper, c, tmp_txt, cache_attrs)
     L.check(ok, "R4", helper.short + ":temporary", "temporary is a process-unique sibling", why, helper.loc(c))
@@ -311,39 +343,67 @@ def _tmp_is_unique_sibling(f: Func, open_call, tmp_txt, cache_attrs):
         if d is None or not any(a in norm(d) for a in cache_attrs):
             return False, "tempfile is not created in the cache file's directory (rename would cross file systems / not be atomic)"
         return True, ""
-    # follow local definitions of the temporary path
-    exprs = []
+    # follow the definitions of the temporary path: locals, helper methods, module-level functions (all evaluated when the
+    # temporary is named) and module-level constants (evaluated once, when the module is imported)
+    exprs = []  # (expr, evaluated at import time?)
     node = open_call.func.value if isinstance(open_call.func, ast.Attribute) else open_call.args[0]
     seen = set()
-    frontier = [node]
+    frontier = [(node, f, False)]
+    unfollowed = []
+    mod = f.module
     while frontier:
-        e = frontier.pop()
-        exprs.append(e)
+        e, fn, at_import = frontier.pop()
+        exprs.append((e, at_import))
         for nme in names_in(e):
-            if nme not in seen and nme not in f.params():
-                seen.add(nme)
-                frontier.extend(local_defs(f, nme))
-        # helper method producing the temporary name
+            if (fn.qualname if fn else "<module>", nme) in seen:
+                continue
+            seen.add((fn.qualname if fn else "<module>", nme))
+            if fn is not None and nme in fn.params():
+                continue
+            ld = local_defs(fn, nme) if fn is not None else []
+            if ld:
+                frontier.extend((d_, fn, at_import) for d_ in ld)
+            elif nme in mod.assigns:
+                # a module-level name: its value was computed at import time -- unless this function rebinds it (global)
+                rebinds = [x.value for g in mod.functions.values() if g.cls is None for x in walk_shallow(g.node) if isinstance(x, ast.Assign) and any(isinstance(t, ast.Name) and t.id == nme for t in x.targets) and any(isinstance(gl, ast.Global) and nme in gl.names for gl in walk_shallow(g.node))]
+                frontier.append((mod.assigns[nme], None, True))
+                frontier.extend((rv, None, False) for rv in rebinds)
         for c in ast.walk(e):
-            if isinstance(c, ast.Call) and isinstance(c.func, ast.Attribute) and is_name(c.func.value, "self") and f.cls is not None:
-                m = f.cls.methods.get(c.func.attr)
-                if m is not None and m.qualname not in seen:
-                    seen.add(m.qualname)
-                    for r in walk_shallow(m.node):
-                        if isinstance(r, ast.Return) and r.value is not None:
-                            frontier.append(r.value)
-                    frontier.extend(c.args)
-    text = " ".join(norm(e) for e in exprs)
+            if not isinstance(c, ast.Call):
+                continue
+            tgt = None
+            if isinstance(c.func, ast.Attribute) and is_name(c.func.value, "self") and fn is not None and fn.cls is not None:
+                tgt = fn.cls.methods.get(c.func.attr)
+            elif isinstance(c.func, ast.Attribute) and isinstance(c.func.value, ast.Name) and fn is not None and fn.cls is not None and c.func.value.id in (fn.cls.name, "cls"):
+                tgt = fn.cls.methods.get(c.func.attr)
+            elif isinstance(c.func, ast.Name):
+                tgt = next((g for g in _module_functions(mod) if g.node.name == c.func.id), None)
+            if tgt is not None and ("call", tgt.qualname) not in seen:
+                seen.add(("call", tgt.qualname))
+                for r in walk_shallow(tgt.node):
+                    if isinstance(r, ast.Return) and r.value is not None:
+                        frontier.append((r.value, tgt, at_import))
+                frontier.extend((a_, fn, at_import) for a_ in c.args)
+    text_call = " ".join(norm(e) for e, imp in exprs if not imp)
+    text_import = " ".join(norm(e) for e, imp in exprs if imp)
+    text = text_call + " " + text_import
     derived = any(a in text for a in cache_attrs) or any(p in text for p in f.params()[1:2])
-    unique = any(tok in text for tok in UNIQUE_TOKENS)
+    unique = any(tok in text_call for tok in UNIQUE_TOKENS)
+    unique_at_import = any(tok in text_import for tok in UNIQUE_TOKENS)
     sibling = any(k in text for k in ("with_name", "with_suffix", "parent", "str(", "f'", 'f"', "+"))
     if not derived:
         return False, f"temporary '{tmp_txt}' is not derived from the cache file's own path (must live in the same directory)"
+    if not unique and unique_at_import:
+        return False, f"the process-unique part of temporary '{tmp_txt}' is computed once when the module is imported: worker processes forked afterwards (multiprocessing) all inherit the same name and write the same temporary concurrently"
     if not unique:
         return False, f"temporary '{tmp_txt}' has a fixed name: two processes indexing the same FASTA write the same temporary concurrently"
     if not sibling:
         return False, f"temporary '{tmp_txt}' may not be in the cache file's directory"
     return True, ""
+
+
+def _module_functions(mod):
+    return [g for g in mod.functions.values() if g.cls is None]
 
 
 def _publish_calls(f: Func, cache_attrs):
